@@ -56,8 +56,7 @@ def comparator_tables(ctx):
 
 
 def _cmp_ref(ctx, f, src, construct, what):
-    got = SB.summary(f.node)
-    want = SB.summary_of_source(src)
+    got, want = SB.agree(f.node, src)
     ctx.stats['terms_compared'] += len(got)
     ctx.check(got == want, construct, what, '%s differs from its documented form: %s' % (construct, SB.diff(got, want)), f, f.node)
 
@@ -139,8 +138,7 @@ def matrix_and_bounds_to_text(ctx):
     # line '<var> >= <min>' per finite lower bound and '<var> <= <max>' per finite upper bound, numbers printed in full
     from .c12_refs import REFS
     g = ctx.func(SY + ':symbolic_bounds')
-    got = SB.summary(g.node, strict_casts=True)
-    want = SB.summary_of_source(REFS[SY + ':symbolic_bounds'], strict_casts=True)
+    got, want = SB.agree(g.node, REFS[SY + ':symbolic_bounds'], strict_casts=True)
     ctx.stats['terms_compared'] += len(got)
     ctx.check(got == want, 'symbolic_bounds', "None bounds become -inf/+inf (`is None`), '>=' lines from min, '<=' lines from max, infinite bounds skipped, numbers via str(float(.))",
               'symbolic_bounds differs from its confirmed behaviour: %s' % SB.diff(got, want), g, g.node)
